@@ -3,10 +3,14 @@ open FormulaeModel
 #print axioms C09.argVars_eq
 #print axioms C09.argsVars_eq
 #print axioms C09.atomVars_eq
+#print axioms C09.C09_empty_refused
 #print axioms C09.C09_action_refused
 #print axioms C09.C09_error_iff
 #print axioms C09.C09_drop
 #print axioms C09.C09_pass
 #print axioms C09.C09_unused_ignored
 #print axioms C09.C09_row_alignment
+#print axioms C09.selectCols_keepRows
+#print axioms C09.incompleteRows_after_drop
+#print axioms C09.C09_drop_eq_filtered
 #print axioms C09.actions_tie
